@@ -184,22 +184,24 @@ theorem partial_tiles_bump {G : Graph} (hwf : WF G) (cb : Callbacks) (hcb : Bump
   exact ⟨items, q, e, hq, ht, hall⟩
 
 theorem lexerNext_inRange_any (env : ApiEnv) (hA : WF env.gA) (hB : WF env.gB)
-    (hcbA : BumpOK env.cbA) (hcbB : BumpOK env.cbB) (hb : ∀ b ∈ env.src, b < 256)
-    (st : LexSt) (h : st.inRange env.src.length) :
-    (lexerNext env st).1.inRange env.src.length := by
+    (hcbA : BumpOK env.cbA) (hcbB : BumpOK env.cbB) (hb : env.bytesOK)
+    (st : LexSt) (h : st.ok env) :
+    (lexerNext env st).1.ok env := by
   have hG : WF (env.graph st.ty) := by unfold ApiEnv.graph; split <;> assumption
   have hC : BumpOK (env.cb st.ty) := by unfold ApiEnv.cb; split <;> assumption
-  have := nextLoop_ok_any hG (env.cb st.ty) hC env.utf8 st.pfx env.src hb (env.src.length + 2)
+  have := nextLoop_ok_any hG (env.cb st.ty) hC env.utf8 st.pfx (env.srcOf st) (env.srcOf_bytes hb st) ((env.srcOf st).length + 2)
     st.stop h.2 (by omega)
+  unfold LexSt.ok
+  rw [srcOf_congr env (lexerNext_srcId env st)]
   unfold lexerNext
   rcases this with ⟨q, h1, h2, h3⟩ | ⟨it, h1, h2, h3, h4⟩
   · rw [h1]; simp only [LexSt.inRange]; omega
   · rw [h1]; simp only [LexSt.inRange]; omega
 
 theorem apiStep_inRange_any (env : ApiEnv) (hA : WF env.gA) (hB : WF env.gB)
-    (hcbA : BumpOK env.cbA) (hcbB : BumpOK env.cbB) (hb : ∀ b ∈ env.src, b < 256)
-    (op : ApiOp) (pool : List LexSt) (h : ∀ st ∈ pool, st.inRange env.src.length) :
-    ∀ st ∈ (apiStep env pool op).1, st.inRange env.src.length := by
+    (hcbA : BumpOK env.cbA) (hcbB : BumpOK env.cbB) (hb : env.bytesOK)
+    (op : ApiOp) (pool : List LexSt) (h : ∀ st ∈ pool, st.ok env) :
+    ∀ st ∈ (apiStep env pool op).1, st.ok env := by
   unfold apiStep
   split
   · exact h
@@ -208,12 +210,12 @@ theorem apiStep_inRange_any (env : ApiEnv) (hA : WF env.gA) (hB : WF env.gB)
       cases pool with
       | nil => simp at hne
       | cons a l => simp
-    have hpick : ∀ i, (pool.getD (i % pool.length) ⟨0, 0, 0, 0, false⟩).inRange env.src.length := by
+    have hpick : ∀ i, (pool.getD (i % pool.length) ⟨0, 0, 0, 0, false, 0⟩).ok env := by
       intro i
       have hj : i % pool.length < pool.length := Nat.mod_lt _ hlen
       rw [getD_lt _ _ _ hj]
       exact h _ (List.getElem_mem hj)
-    have hset : ∀ j x, x.inRange env.src.length → ∀ st ∈ setAt pool j x, st.inRange env.src.length := by
+    have hset : ∀ j x, x.ok env → ∀ st ∈ setAt pool j x, st.ok env := by
       intro j x hx st hst
       rcases List.mem_or_eq_of_mem_set hst with h1 | h1
       · exact h _ h1
@@ -229,12 +231,12 @@ theorem apiStep_inRange_any (env : ApiEnv) (hA : WF env.gA) (hB : WF env.gB)
       · exact h _ h1
       · rw [h1]; exact hpick i
     | morph i => exact hset _ _ (hpick i)
-    | fresh p =>
+    | fresh p k =>
       intro st hst
       simp only [List.mem_append, List.mem_singleton] at hst
       rcases hst with h1 | h1
       · exact h _ h1
-      · rw [h1]; simp [LexSt.inRange]
+      · rw [h1]; simp [LexSt.ok, LexSt.inRange]
     | cloneFrom i j =>
       simp only
       split
@@ -244,9 +246,9 @@ theorem apiStep_inRange_any (env : ApiEnv) (hA : WF env.gA) (hB : WF env.gB)
 /-- **C14 for partial lexers and bumping callbacks.** `api_in_range` without the restriction to ordinary
 lexers and to callbacks that do not bump. -/
 theorem api_in_range_any (env : ApiEnv) (hA : WF env.gA) (hB : WF env.gB)
-    (hcbA : BumpOK env.cbA) (hcbB : BumpOK env.cbB) (hb : ∀ b ∈ env.src, b < 256)
-    (ops : List ApiOp) (pool : List LexSt) (h : ∀ st ∈ pool, st.inRange env.src.length) :
-    ∀ st ∈ apiRun env pool ops, st.inRange env.src.length := by
+    (hcbA : BumpOK env.cbA) (hcbB : BumpOK env.cbB) (hb : env.bytesOK)
+    (ops : List ApiOp) (pool : List LexSt) (h : ∀ st ∈ pool, st.ok env) :
+    ∀ st ∈ apiRun env pool ops, st.ok env := by
   induction ops generalizing pool with
   | nil => exact h
   | cons op ops ih =>
